@@ -167,7 +167,7 @@ def run(tier: str) -> int:
               "search: corner populations (zero / huge incomes, birth years 1915…, pensioners, self-employed, big families, every "
               "mietstufe of the date) on the real system, any exception is a hit. distinct = (class, obligation) / populations.")
     emit_lean.regenerate()
-    common.build_and_audit(r, ["C08", "C08Inst"], leanchecker=not quick)
+    common.build_and_audit(r, ["C08", "C08Sim", "C08Inst"], leanchecker=not quick)
     rnd = common.rng("C08")
     entries = extract.all_entry_dates()
     w1 = D.fromordinal(max(entries))
